@@ -269,6 +269,10 @@ func (g *Gen) Next(t *rapid.T) *Op {
 		op = &Op{K: "shrink", Mode: rapid.SampledFrom([]int{0, 0, 0, 1, 1, 2, 3}).Draw(t, "shrinkMode")}
 	case "reset":
 		op = &Op{K: "reset"}
+		if rapid.IntRange(0, 7).Draw(t, "resetCycles") == 0 {
+			// a world that is reset over and over (with a query in between): N more Resets of the then empty world
+			op.N = rapid.SampledFrom([]int{21, 22, 63, 64, 65, 130}).Draw(t, "cycles")
+		}
 	case "stats":
 		op = &Op{K: "stats"}
 	case "obsNew":
@@ -1222,8 +1226,11 @@ func (g *Gen) genObs(t *rapid.T) *Op {
 	case 1, 2, 3:
 		os.Without = subset(t, 0xffff&^c&^maskOf(os.With), 1, 2, "without")
 	}
-	if rapid.IntRange(0, 7).Draw(t, "unregInCb") == 0 {
+	if rapid.IntRange(0, 7).Draw(t, "unregInCb") == 0 || removalEvent(os.Ev) && rapid.IntRange(0, 3).Draw(t, "oneShotRemovalObserver") == 0 {
 		os.UnregP1 = 1 + rapid.IntRange(0, len(g.m().Obs)).Draw(t, "unregWhom")
+		if removalEvent(os.Ev) && rapid.Bool().Draw(t, "oneShot") {
+			os.UnregP1 = 1 + len(g.m().Obs) // a one-shot observer: it unregisters itself in its first callback
+		}
 	}
 	os.Order = rapid.IntRange(0, 3).Draw(t, "builderOrder")
 	os.Reenter = !removalEvent(os.Ev) && g.It.M.Reg&comps.RelMask == comps.RelMask && rapid.IntRange(0, 5).Draw(t, "reentrantCallback") == 0
@@ -1737,6 +1744,19 @@ func (g *Gen) chainRels(t *rapid.T, op *Op) *Op {
 	}
 	if op.FS.Inst >= 0 {
 		op.FS.Order = rapid.IntRange(0, 3).Draw(t, "builderOrder")
+		switch rapid.IntRange(0, 19).Draw(t, "repeatedArguments") {
+		case 0:
+			// the same relation component with two fixed targets: legal, and (unless the targets are equal) matches nothing
+			if len(op.FS.Rels) > 0 {
+				r := op.FS.Rels[rapid.IntRange(0, len(op.FS.Rels)-1).Draw(t, "repeatedRel")]
+				op.FS.Rels = append(op.FS.Rels, RelSpec{C: r.C, T: g.pickTarget(t), S: r.S})
+			}
+		case 1:
+			// a component named twice in With (or one that is a type parameter as well): positions count every mention
+			if l := op.FS.List(); len(l) > 0 {
+				op.FS.With = append(op.FS.With, l[rapid.IntRange(0, len(l)-1).Draw(t, "repeatedWith")])
+			}
+		}
 	}
 	return op
 }
